@@ -418,12 +418,20 @@ def reads (cx : RefCtx) (sem : Sem V) (e : Expr) : List Read := (evalT cx sem e)
 
 /-! ## 6. written (non-computed) references -/
 
-/-- a reference operand under `refify`: a range text that resolves to one address which reads back from its printed
-    form as an address object on a named sheet, or an intersection of such -/
+/-- the address text survives the TEXTUAL `.replace('_R_', '_REF_').replace('_C_', '_REF_')` that the reference operators
+    and `_build_reference` apply to the emitted code of their operands (C02's `refify` follows the code: the replacement
+    also runs inside the string literal, so a sheet named `My_R_S` is emitted as `My_REF_S` there).  True of every
+    address whose sheet name does not contain `_R_` / `_C_`. -/
+def refixed (s : Str) : Bool := replaceRC s = s
+
+/-- a reference operand under `refify`: a range text that resolves to one address whose text the textual replacement
+    leaves alone and which reads back from its printed form as an address object on a named sheet, or an intersection
+    of such -/
 def refOperand (cx : RefCtx) : Expr → Bool
   | .operand (.range t) =>
     match resolve cx t with
     | .one a =>
+      refixed a.address &&
       match parseRef a.address with
       | some (.addr b) => b.rect.sheet ≠ [] && (b.isRange || (b.rect.c1 = b.rect.c2 && b.rect.r1 = b.rect.r2))
       | _ => false
@@ -447,7 +455,8 @@ def written (cx : RefCtx) : Expr → Bool
     let f := pyFuncBase name
     if f = nmOffset ∨ f = nmIndirect ∨ f = nmSubtotal ∨ f = nmPi ∨ f = ['t', 'r', 'u', 'e'] ∨ f = ['f', 'a', 'l', 's', 'e']
     then false
-    else if f = nmRow ∨ f = nmColumn then args.length ≤ 1 && args.all (refOperand cx)
+    else if f = nmRow ∨ f = nmColumn then
+      args.length ≤ 1 && args.all (refOperand cx) && (!args.isEmpty || refixed (ownAddr cx).address)
     else writtenArgs cx args
 /-- arguments: as `written`, and additionally a multi-area defined name may stand as an argument of its own -/
 def writtenArgs (cx : RefCtx) : List Expr → Bool
